@@ -80,8 +80,11 @@ class _TabulationCutoff(object):
       cutoff = (nr-1)*dr      
     elif not cutoff is None and not dr is None:
       # Set nr
-      nr = (cutoff/dr) + 1
-      nr = int(nr)
+      # cutoff/dr can fall fractionally below a whole number of steps because
+      # of floating point rounding (e.g. 0.3/0.1 = 2.9999999999999996), which would
+      # lose the final row of the table: nudge the ratio up by a few ulps before truncating.
+      nsteps = (cutoff/dr) * (1.0 + 1e-12)
+      nr = int(nsteps) + 1
     elif not dr is None:
       raise ConfigParserException("'{dr}' cannot be specified without either '{nr}' or '{cutoff}' in [Tabulation] section of potential definition.".format(**self._template_dict))
 
